@@ -550,6 +550,8 @@ class Executor:
             raise exc
 
     def st_FunctionDef(self, node):
+        if self.models._plug("nested_function", self, node) is True:  # opt-in (plug_c04r): a single-expression nested function as a closure
+            return
         raise Unsupported(f"nested function definition {node.name}")
 
     # ---- loops
@@ -890,6 +892,15 @@ class Executor:
                 if not self.st.decide(o.n == n):
                     raise PyRaise("ValueError", lineno)
                 return [o.t.project(self.st, o.elems[i]) for i in range(n)]
+        if isinstance(v, RecV) and getattr(v.ty, "cls", None) is not None:
+            ci = S.load_class(v.ty.cls)
+            if ci is not None and any(b.rsplit(".", 1)[-1] == "NamedTuple" for b in ci.bases):
+                # an instance of a typing.NamedTuple class is a tuple of its fields, in declaration order
+                names = [it.target.id for it in ci.node.body if isinstance(it, ast.AnnAssign) and isinstance(it.target, ast.Name)]
+                if set(names) == set(v.vals):
+                    if len(names) != n:
+                        raise PyRaise("ValueError", lineno)
+                    return [v.vals[f] for f in names]
         raise Unsupported(f"cannot unpack {v!r}")
 
     def mangled(self, attr: str) -> str:
@@ -1148,6 +1159,10 @@ class Executor:
         return self.ev(node.orelse)
 
     def ev_BoolOp(self, node):
+        if self.no_fork:
+            r = self.models._plug("boolop_nofork", self, node)  # opt-in (plug_c13d): `a or b` of Booleans inside a comprehension filter, as a term
+            if r is not NotImplemented:
+                return r
         is_and = isinstance(node.op, ast.And)
         v = None
         for i, e in enumerate(node.values):
@@ -1325,7 +1340,7 @@ class Executor:
 
     def equals(self, a, b, lineno):
         st = self.st
-        if is_concrete(a) and is_concrete(b):
+        if is_concrete(a) and is_concrete(b) and _deep_concrete(a) and _deep_concrete(b):
             return a == b
         if a is None or b is None:
             return self.is_same(a, b)
@@ -1848,6 +1863,11 @@ class Executor:
         if not st.feasible():
             raise PathEnd
         raise PyRaise(en, lineno)
+
+
+def _deep_concrete(v):
+    """A tuple is only a concrete value if all its items are (a tuple of symbolic values / heap references is compared item by item)."""
+    return all(is_concrete(x) and _deep_concrete(x) for x in v) if isinstance(v, tuple) else True
 
 
 def _same(a, b):
